@@ -303,7 +303,7 @@ class Spelling:
 
 
 DECLS = ("", '<?xml version="1.0"?>\n', "<?xml version='1.0' ?>", '<?xml version="1.0" encoding="UTF-8"?>\n')
-EMPTY = ("/>", " />", "></%s>")
+EMPTY = ("/>", " />", "></%s>", ">\n  </%s>")  # the last: an empty element as a pretty-printer writes it (white space only)
 
 
 def _asciify(s):
@@ -353,7 +353,7 @@ def spellings(tier="quick"):
     """Pairwise-ish set of spellings for quick, full product for thorough."""
     if tier == "thorough":
         for decl, indent, quote, rev, empty, numeric, cdata, pad in itertools.product(
-            range(4), (0, 1), ('"', "'"), (0, 1), range(3), (0, 1), (0, 1), (0, 1)
+            range(4), (0, 1), ('"', "'"), (0, 1), range(4), (0, 1), (0, 1), (0, 1)
         ):
             if cdata and numeric:
                 continue
@@ -372,5 +372,6 @@ def spellings(tier="quick"):
     yield Spelling(2, 1, "'", 0, 1, 1, 0, 1, 1)
     yield Spelling(0, 0, "'", 1, 0, 0, 0, 1, 0)
     yield Spelling(3, 0, '"', 0, 1, 0, 0, 0, 1)
+    yield Spelling(0, 1, '"', 1, 3, 0, 0, 0, 1)  # empty elements with white space between start and end tag
     yield Spelling(0, 1, '"', 0, 0, 0, 0, 0, 1, attrsep="\n    ")  # one attribute per line
     yield Spelling(1, 0, "'", 1, 2, 0, 0, 0, 1, attrsep="\t")
